@@ -19,6 +19,7 @@ def run(ck):
     impl = wv.run_lines([exe], lines, env=env)
     mw = wv.run_lines([mdrv], ["w%d encw %s" % (i, c.line()[4:]) for i, c in enumerate(cases)], env=env)
     items = []
+    shape_breaks = []
     dist = ck.cov.setdefault("case_classes", {})
     for i, c in enumerate(cases):
         for tag in ("b", "u"):
@@ -39,8 +40,9 @@ def run(ck):
             ok_shape &= wl[-1] == (10, hl) and pos == len(final)
             mfam = mw.get("w%d" % i, "")
             if not ok_shape:
-                ck.violation("the write sequence reaching the output is not 'sequential appends, then %d tag bytes at offset 10 as the last write': %s" % (hl, kv["wlog"][:200]), rep, found_input=True)
-                continue
+                # not an instance of the model's family: the correspondence is broken; the states are still reconstructed and
+                # judged by the property itself below
+                shape_breaks.append((rep, kv["wlog"][:200], hl))
             # reconstruct intermediate states: after every write, and byte prefixes inside each write
             state = bytearray()
             dpos = 0
@@ -89,6 +91,10 @@ def run(ck):
             last = replay_of(ck, x, {"state": m["where"]})
         if len(ck.cov["samples"]) < 8 and (m["cls"], len(x["data"]) < 74) not in [(s.get("class"), s.get("short")) for s in ck.cov["samples"]]:
             ck.cov["samples"].append({"class": m["cls"], "short": len(x["data"]) < 74, "state": m["where"], "state_len": len(x["data"]), "verify": x["ver"], "decrypt": x["dec"][:20]})
+    if shape_breaks and not ck.violations:
+        rep, wl, hl = shape_breaks[0]
+        rep["broken"] = "correspondence: recorded write sequence is not an instance of the model's family (sequential appends, then %d tag bytes at offset 10 as the last write)" % hl
+        ck.violation("the write sequence reaching the output (%s) is not the one the theorem is about, but no intermediate state verified" % wl, rep, found_input=False)
     ck.cov["distinct_nontrivial"] = len(distinct)
     ck.cov["encryptions"] = len(cases) * 2
     ck.cov["disagreements_model_vs_impl"] = corr
